@@ -45,7 +45,10 @@ Definition xpub_new_position (m : mode) (x : xpub) (l : log) (claim : option (Z 
     let tl := l_tlen l in
     match add64 m (x_begin x) tl with
     | Ok e =>
-        if max_possible_position l <=? e then (x_with_pub x p1, Err MaxPositionExceeded)
+        if max_possible_position l <=? e
+        then (* the appender has closed the last term with a padding frame: the publication is at the end of the position space
+                (fixes/C01-excl-last-term.diff: self.term_offset = term_length) *)
+             (mkX p1 tl (x_tid x) (x_idx x) (x_begin x), Err MaxPositionExceeded)
         else
           match next_partition_index m (x_idx x) with
           | Ok next_index =>
